@@ -115,6 +115,7 @@ func handleHTTP1ClientStream(b *bufio.Reader, progress *api.ReadProgress, tcpID 
 	var body []byte
 	body, err = io.ReadAll(req.Body)
 	req.Body = io.NopCloser(bytes.NewBuffer(body)) // rewind
+	mergeTrailer(req.Header, req.Trailer)
 	if len(req.TransferEncoding) > 0 {
 		// The body kept here has been read through the chunked decoder: it must not be
 		// reported (or re-encoded by the HAR conversion) as if it were still chunked.
@@ -171,6 +172,7 @@ func handleHTTP1ServerStream(b *bufio.Reader, progress *api.ReadProgress, tcpID 
 	var body []byte
 	body, err = io.ReadAll(res.Body)
 	res.Body = io.NopCloser(bytes.NewBuffer(body)) // rewind
+	mergeTrailer(res.Header, res.Trailer)
 
 	ident := fmt.Sprintf(
 		"%s_%s_%s_%s_%d_%s",
@@ -193,4 +195,16 @@ func handleHTTP1ServerStream(b *bufio.Reader, progress *api.ReadProgress, tcpID 
 		emitter.Emit(item)
 	}
 	return
+}
+
+// mergeTrailer adds the trailer fields of a chunked message to its header fields. net/http keeps
+// them apart (Request.Trailer / Response.Trailer, filled in once the body has been read) and only
+// the header is reported, so a field sent after the last chunk - a checksum, a signature, a
+// grpc-web status - was missing from the entry. The HTTP/2 assembler reports trailers the same way.
+func mergeTrailer(header http.Header, trailer http.Header) {
+	for name, values := range trailer {
+		if len(values) > 0 {
+			header[name] = append(header[name], values...)
+		}
+	}
 }
